@@ -79,3 +79,8 @@ def cases(tier, seed, ctx=None):
     # the string constructor while other threads construct ranges of their own (a value class is reentrant)
     for st, size in ((b"-7", 50), (b"100-200", 1000), (b"3-1", 10), (b"0-", 5), (b" 1 - 2 ", 9), (b"bogus", 9), (b"2147483000-2147483647", 3000000000)):
         yield ("range", [5, st, size], "string-ctor-threads")
+    # numerals written with leading zeros (more digits than any int has, small values)
+    for st in (b"00000000001-2", b"00000000001-", b"-00000000002", b"00000000007-00000000003", b"0000000000000000000000001-000000000000000000000003",
+               b"00000000002-00000000005", b"000000000000-0"):
+        for size in (4, 10, -1):
+            yield ("range", [1, st, size], "zero-padded")
